@@ -298,6 +298,11 @@ class _Sym:
     def untag(self, x, tag):
         return unwrap(Val(x.ty.alt_ty(tag), x.ty.get(tag, x.t)))
 
+    def inject(self, union_ty, tag, x):
+        """The value x as the alternative `tag` of a union sort."""
+        x = wrap(x)
+        return unwrap(Val(union_ty, union_ty.mk(tag, x.t)))
+
     def defarray(self, name: str, args: list, pred: Callable, n=None):
         """A boolean spec array defined pointwise: the term `name(args)` (a function of the arguments, so every
         mention denotes the same array) and its defining axiom.  Returns (array-as-Seq-like, axiom)."""
@@ -437,6 +442,9 @@ class _Conc:
         return (x,)
 
     def untag(self, x, tag):
+        return x
+
+    def inject(self, union_ty, tag, x):
         return x
 
     def eq(self, a, b):
